@@ -197,9 +197,14 @@ structure Entry where
   comp : Bytes
 deriving Repr, DecidableEq
 
+/-- `list.index`-like search used by `find_or_insert` (a dict from string to first index). -/
+def indexOf? (s : Bytes) : List Bytes → Option Nat
+  | [] => none
+  | x :: xs => if x = s then some 0 else (indexOf? s xs).map (· + 1)
+
 /-- `binformat.find_or_insert(pool, lambda x: x)`: index of the string, appending it if new. -/
 def findOrInsert (pool : List Bytes) (s : Bytes) : List Bytes × Nat :=
-  match pool.idxOf? s with
+  match indexOf? s pool with
   | some i => (pool, i)
   | none => (pool ++ [s], pool.length)
 
@@ -222,7 +227,7 @@ def sortEntries (es : List Entry) : List Entry :=
 
 def stored (e : Entry) : Bytes := if e.comp.length < e.raw.length then e.comp else e.raw
 
-def poolIndex (pool : List Bytes) (s : Bytes) : Nat := (pool.idxOf? s).getD pool.length
+def poolIndex (pool : List Bytes) (s : Bytes) : Nat := (indexOf? s pool).getD pool.length
 
 def summaryBytes (version : Nat) (pool : List Bytes) (e : Entry) : Bytes :=
   le32 e.durMs ++ ((if version == 3 then le32 e.lastMs else []) ++
@@ -233,29 +238,37 @@ def offsets (start : Nat) : List Nat → List Nat
   | [] => []
   | n :: ns => start :: offsets (start + n) ns
 
-def sumLen (l : List Nat) : Nat := l.foldl (· + ·) 0
+def lens (l : List Bytes) : List Nat := l.map (·.length)
 
-def poolStrings (pool : List Bytes) : Bytes := (pool.map fun s => s ++ [0]).flatten
+def totalLen (l : List Bytes) : Nat := l.flatten.length
 
-/-- `save_scenes_image_sync(file, scenes, version=…)` for entries that all carry parsed scenes. -/
+/-- One row of the entry table: CRC, data offset, data size, summary offset. -/
+def rowBytes (e : Entry) (d s : Nat) : Bytes :=
+  le32 e.crc ++ (le32 d ++ (le32 (stored e).length ++ le32 s))
+
+def tableRows : List Entry → List Nat → List Nat → List Bytes
+  | e :: es, d :: ds, s :: ss => rowBytes e d s :: tableRows es ds ss
+  | _, _, _ => []
+
+def imgMagic : Bytes := [0x56, 0x53, 0x49, 0x46]
+
+/-- `save_scenes_image_sync(file, scenes, version=…)` for entries that all carry parsed scenes:
+header, pool offsets, NUL-terminated pool strings, entry table (sorted by CRC), summaries, data;
+the deferred slots hold absolute file offsets. -/
 def buildImage (version : Nat) (es : List Entry) : Bytes :=
   let pool := buildPool es
   let sorted := sortEntries es
-  let n := sorted.length
-  let poolOff := 20 + 4 * pool.length
-  let strOffs := offsets poolOff (pool.map fun s => s.length + 1)
-  let sceneOff := poolOff + sumLen (pool.map fun s => s.length + 1)
+  let strs := pool.map (· ++ [0])
   let sums := sorted.map (summaryBytes version pool)
-  let sumOff := sceneOff + 16 * n
-  let sumOffs := offsets sumOff (sums.map (·.length))
-  let dataOff := sumOff + sumLen (sums.map (·.length))
   let datas := sorted.map stored
-  let dataOffs := offsets dataOff (datas.map (·.length))
-  let table := (List.zip sorted (List.zip dataOffs sumOffs)).map fun (e, d, s) =>
-    le32 e.crc ++ (le32 d ++ (le32 (stored e).length ++ le32 s))
-  [0x56, 0x53, 0x49, 0x46] ++ (le32 version ++ (le32 n ++ (le32 pool.length ++ (le32 sceneOff ++
-    ((strOffs.map le32).flatten ++ (poolStrings pool ++ (table.flatten ++ (sums.flatten ++
-      datas.flatten))))))))
+  let poolOff := 20 + 4 * pool.length
+  let sceneOff := poolOff + totalLen strs
+  let sumOff := sceneOff + 16 * sorted.length
+  let dataOff := sumOff + totalLen sums
+  (imgMagic ++ (le32 version ++ (le32 sorted.length ++ (le32 pool.length ++ le32 sceneOff)))) ++
+    (((offsets poolOff (lens strs)).map le32).flatten ++ (strs.flatten ++
+      ((tableRows sorted (offsets dataOff (lens datas)) (offsets sumOff (lens sums))).flatten ++
+        (sums.flatten ++ datas.flatten))))
 
 /-- What `parse_scenes_image` returns per entry (data before LZMA decoding). -/
 structure ParsedEntry where
@@ -266,7 +279,8 @@ structure ParsedEntry where
   data : Bytes
 deriving Repr, DecidableEq
 
-/-- `read_nullstr(file, pos)`: `''` for position 0, else the bytes up to the next NUL. -/
+/-- `read_nullstr(file, pos)`: `''` for position 0, else the bytes up to the next NUL
+(`ValueError` when the file ends first). -/
 def readNullStr (file : Bytes) (pos : Nat) : Option Bytes :=
   if pos == 0 then some []
   else
@@ -274,49 +288,56 @@ def readNullStr (file : Bytes) (pos : Nat) : Option Bytes :=
     let s := rest.takeWhile (· != 0)
     if s.length < rest.length then some s else none
 
+def mapOpt {α β : Type} (f : α → Option β) : List α → Option (List β)
+  | [] => some []
+  | a :: as => (f a).bind fun b => (mapOpt f as).bind fun bs => some (b :: bs)
+
 def readU32s : Nat → Bytes → Option (List Nat × Bytes)
   | 0, bs => some ([], bs)
-  | n + 1, bs => do
-    let (a, bs) ← takeN 4 bs
-    let (r, bs) ← readU32s n bs
-    pure (unle32 a :: r, bs)
+  | n + 1, bs =>
+    (takeN 4 bs).bind fun (a, bs) =>
+    (readU32s n bs).bind fun (r, bs) =>
+    some (unle32 a :: r, bs)
 
-def parseEntry (file : Bytes) (version : Nat) (pool : List Bytes) (row : Bytes) : Option ParsedEntry := do
-  let (crc, row) ← takeN 4 row
-  let (dOff, row) ← takeN 4 row
-  let (dLen, row) ← takeN 4 row
-  let (sOff, _) ← takeN 4 row
-  let s := file.drop (unle32 sOff)
-  let (dur, s) ← takeN 4 s
-  let (last, s) ← if version == 3 then takeN 4 s else some (dur, s)
-  let (cnt, s) ← takeN 4 s
-  let (idx, _) ← readU32s (unle32 cnt) s
-  let sounds ← idx.mapM fun i => pool[i]?
-  pure { crc := unle32 crc, durMs := unle32 dur, lastMs := unle32 last, sounds,
+/-- The summary block of one entry: duration, (version 3: last-speak time), sound indices. -/
+def parseSummary (version : Nat) (pool : List Bytes) (s : Bytes) : Option (Nat × Nat × List Bytes) :=
+  (takeN 4 s).bind fun (dur, s) =>
+  (if version == 3 then takeN 4 s else some (dur, s)).bind fun (last, s) =>
+  (takeN 4 s).bind fun (cnt, s) =>
+  (readU32s (unle32 cnt) s).bind fun (idx, _) =>
+  (mapOpt (fun i => pool[i]?) idx).bind fun sounds =>
+  some (unle32 dur, unle32 last, sounds)
+
+def parseEntry (file : Bytes) (version : Nat) (pool : List Bytes) (row : Bytes) : Option ParsedEntry :=
+  (takeN 4 row).bind fun (crc, row) =>
+  (takeN 4 row).bind fun (dOff, row) =>
+  (takeN 4 row).bind fun (dLen, row) =>
+  (takeN 4 row).bind fun (sOff, _) =>
+  (parseSummary version pool (file.drop (unle32 sOff))).bind fun (dur, last, sounds) =>
+  some { crc := unle32 crc, durMs := dur, lastMs := last, sounds,
          data := (file.drop (unle32 dOff)).take (unle32 dLen) }
 
 def parseRows (file : Bytes) (version : Nat) (pool : List Bytes) : Nat → Bytes → Option (List ParsedEntry)
   | 0, _ => some []
-  | n + 1, bs => do
-    let (row, bs) ← takeN 16 bs
-    let e ← parseEntry file version pool row
-    let r ← parseRows file version pool n bs
-    pure (e :: r)
+  | n + 1, bs =>
+    (takeN 16 bs).bind fun (row, bs) =>
+    (parseEntry file version pool row).bind fun e =>
+    (parseRows file version pool n bs).bind fun r =>
+    some (e :: r)
 
 /-- `parse_scenes_image(file)`: version and the entries in table order. -/
-def parseImage (file : Bytes) : Option (Nat × List ParsedEntry) := do
-  let (magic, bs) ← takeN 4 file
-  if magic != [0x56, 0x53, 0x49, 0x46] then none
-  let (v, bs) ← takeN 4 bs
-  let version := unle32 v
-  if version != 2 && version != 3 then none
-  let (n, bs) ← takeN 4 bs
-  let (p, bs) ← takeN 4 bs
-  let (so, bs) ← takeN 4 bs
-  let (offs, _) ← readU32s (unle32 p) bs
-  let pool ← offs.mapM (readNullStr file)
-  let rows ← parseRows file version pool (unle32 n) (file.drop (unle32 so))
-  pure (version, rows)
+def parseImage (file : Bytes) : Option (Nat × List ParsedEntry) :=
+  (takeN 4 file).bind fun (magic, bs) =>
+  if magic != imgMagic then none else
+  (takeN 4 bs).bind fun (v, bs) =>
+  if unle32 v != 2 && unle32 v != 3 then none else
+  (takeN 4 bs).bind fun (n, bs) =>
+  (takeN 4 bs).bind fun (p, bs) =>
+  (takeN 4 bs).bind fun (so, bs) =>
+  (readU32s (unle32 p) bs).bind fun (offs, _) =>
+  (mapOpt (readNullStr file) offs).bind fun pool =>
+  (parseRows file (unle32 v) pool (unle32 n) (file.drop (unle32 so))).map fun rows =>
+  (unle32 v, rows)
 
 /-- The game's lookup: binary search for a CRC in the (sorted) entry table. `hi` exclusive. -/
 def bsearchAux (keys : List Nat) (k : Nat) : Nat → Nat → Nat → Option Nat
